@@ -401,3 +401,98 @@ def hull_volume(P):
         dist = -(c @ nu + o)
         vol += fv * dist / d
     return vol
+
+
+# ---------------------------------------------------------------------------
+# O-GAP: certified lower bound for a convex differentiable f over a finite box
+
+
+def convex_box_lower_bound(f, grad, x, lo, hi):
+    """f* >= f(x) + min_{y in box} grad(x).(y - x): valid for any x in the box (the bound is only loose, never wrong)."""
+    g = grad(x)
+    return float(f(x) + np.sum(np.minimum(g * (lo - x), g * (hi - x))))
+
+
+def poisson_nll(Abar, c0, b, w):
+    """weighted Poisson negative log-likelihood (up to the constant log b!) of target b given total capture q = Abar x + c0."""
+
+    def f(x):
+        q = Abar @ x + c0
+        if np.any(q <= 0):
+            return np.inf
+        return float(np.sum(w * (q - b * np.log(q))))
+
+    def grad(x):
+        q = Abar @ x + c0
+        return Abar.T @ (w * (1.0 - b / q))
+
+    return f, grad
+
+
+def poisson_oracle(Abar, c0, b, w, lo, hi):
+    """(candidate x, f(x), certified lower bound) by an independent optimiser (L-BFGS-B) + the convexity certificate."""
+    from scipy.optimize import minimize
+
+    f, grad = poisson_nll(Abar, c0, b, w)
+    x0 = np.clip((lo + hi) / 2.0, lo, hi)
+    # make sure the start has positive capture
+    if not np.isfinite(f(x0)):
+        x0 = hi.copy()
+    best = None
+    for start in (x0, lo + 0.9 * (hi - lo), lo + 0.1 * (hi - lo)):
+        if not np.isfinite(f(start)):
+            continue
+        r = minimize(f, start, jac=grad, method="L-BFGS-B", bounds=list(zip(lo, hi)), options=dict(ftol=1e-15, gtol=1e-12, maxiter=2000))
+        x = np.clip(r.x, lo, hi)
+        if np.isfinite(f(x)) and (best is None or f(x) < f(best)):
+            best = x
+    if best is None:
+        return None, np.inf, -np.inf
+    return best, f(best), convex_box_lower_bound(f, grad, best, lo, hi)
+
+
+# ---------------------------------------------------------------------------
+# O-QCVX: excitation model, min over the box of max_i | e(b_i) - e(q_i(x)) |,  e(q) = q / (1 + q)
+
+
+def excitation(q):
+    q = np.asarray(q, dtype=float)
+    return q / (1.0 + q)
+
+
+def excitation_opt(Abar, c0, b, lo, hi, tol=1e-9):
+    """t* to `tol` by bisection over LP feasibility (HiGHS)."""
+    from scipy.optimize import linprog
+
+    eb = excitation(b)
+    n = Abar.shape[1]
+    bounds = [(l, (None if not np.isfinite(h) else h)) for l, h in zip(lo, hi)]
+
+    def feasible(t):
+        A_ub, b_ub = [], []
+        for i in range(len(b)):
+            up = eb[i] + t
+            if up < 1.0:
+                qmax = up / (1.0 - up)
+                A_ub.append(Abar[i])
+                b_ub.append(qmax - c0[i])
+            low = eb[i] - t
+            if low > -1.0:  # e^-1 is increasing on (-1, 1)
+                qmin = low / (1.0 - low)
+                A_ub.append(-Abar[i])
+                b_ub.append(-(qmin - c0[i]))
+        if not A_ub:
+            return True
+        r = linprog(np.zeros(n), A_ub=np.array(A_ub), b_ub=np.array(b_ub), bounds=bounds, method="highs")
+        return r.status == 0
+
+    lo_t, hi_t = 0.0, 1.0
+    if feasible(0.0):
+        return 0.0
+    while hi_t - lo_t > tol:
+        mid = 0.5 * (lo_t + hi_t)
+        if feasible(mid):
+            hi_t = mid
+        else:
+            lo_t = mid
+    return hi_t
